@@ -691,6 +691,10 @@ Proof.
   induction sched as [|t l IH]; intros c k C; [exact C|]. rewrite run_cons. apply IH. apply ctx_stable_step. exact C.
 Qed.
 
+(* a cancellation of the parent reaches a live group context in that very step *)
+Lemma parent_cancel_step : forall sc c, s_ctx (fst c) = None -> s_ctx (fst (step sc c TX)) = Some CParent.
+Proof. intros sc [s tr] C. simpl in C. erewrite step_some; [|unfold act; rewrite C; reflexivity]. reflexivity. Qed.
+
 (* every worker function returned nil, as seen after wg.Wait *)
 Lemma all_nil_of_passed : forall sc s, SInv sc s -> passed_wait (s_c s) = true -> s_err s = None ->
   forall i w, nth_error sc i = Some w -> w_res w = None.
@@ -740,8 +744,8 @@ Proof. intros sc sched i v l1 l2 E. destruct (inv_exec sc sched) as [_ T]. eappl
 
 (* 3. Wait returns only after every goroutine ran wg.Done (hence after every worker function returned); nil iff
    every worker function returned nil, otherwise the error of the winner of the Once; the context is then done *)
-Theorem wait_returns : forall sc sched r,
-  let s := fst (exec sc sched) in let tr := snd (exec sc sched) in
+Theorem wait_returns_inv : forall sc c r, Inv sc c ->
+  let s := fst c in let tr := snd c in
   wait_result s = Some r ->
   (forall i w, nth_error sc i = Some w -> s_g s i = GExit (w_res w) /\ In (EvDone i) tr /\ In (EvRet i (w_res w)) tr) /\
   (forall i, i < length sc -> precedes (EvDone i) EvWaitPass tr) /\
@@ -750,7 +754,7 @@ Theorem wait_returns : forall sc sched r,
   (forall e, r = Some e -> exists j w, filter is_enter tr = [EvEnter j] /\ nth_error sc j = Some w /\ w_res w = Some e) /\
   s_ctx s <> None.
 Proof.
-  intros sc sched r s tr WR. destruct (inv_exec sc sched) as [I T]. fold s in I, T. fold tr in T.
+  intros sc c r [I T] s tr WR. fold s in I, T. fold tr in T.
   unfold wait_result in WR. destruct (s_c s) eqn:C; try discriminate WR. inversion WR; subst r0. clear WR.
   assert (P : passed_wait (s_c s) = true) by (rewrite C; reflexivity).
   pose proof (i_ret sc s I) as R. rewrite C in R. destruct R as [Rc Re].
@@ -772,6 +776,18 @@ Proof.
     destruct W as (j & _ & W2 & W3). destruct (i_results sc s I j _ W3) as (w & Hw & Hr). exists j, w. auto.
   - exact Rc.
 Qed.
+
+Theorem wait_returns : forall sc sched r,
+  let s := fst (exec sc sched) in let tr := snd (exec sc sched) in
+  wait_result s = Some r ->
+  (forall i w, nth_error sc i = Some w -> s_g s i = GExit (w_res w) /\ In (EvDone i) tr /\ In (EvRet i (w_res w)) tr) /\
+  (forall i, i < length sc -> precedes (EvDone i) EvWaitPass tr) /\
+  (forall i, each_occ (EvDone i) (fun l => exists x, In (EvRet i x) l) tr) /\
+  (r = None <-> forall i w, nth_error sc i = Some w -> w_res w = None) /\
+  (forall e, r = Some e -> exists j w, filter is_enter tr = [EvEnter j] /\ nth_error sc j = Some w /\ w_res w = Some e) /\
+  s_ctx s <> None.
+Proof. intros sc sched r. apply wait_returns_inv. apply inv_exec. Qed.
+
 
 
 (* ================= liveness: progress under fair rounds ================= *)
@@ -1260,16 +1276,20 @@ Qed.
 (* 5. from every state of every execution in which all worker functions have returned, nine fair rounds - whatever the
    order inside them - bring Wait to return: six until the last goroutine is gone (one to get into the Once, three for
    its owner to release it, one to get past it, one for wg.Done), three for wg.Wait, the cancel and the return *)
-Theorem deadlock_free : forall sc sched c',
-  allret sc (fst (exec sc sched)) -> erounds sc 9 (exec sc sched) c' -> wait_result (fst c') <> None.
+Theorem deadlock_free_inv : forall sc c c', Inv sc c ->
+  allret sc (fst c) -> erounds sc 9 c c' -> Inv sc c' /\ wait_result (fst c') <> None.
 Proof.
-  intros sc sched c' A R. destruct (erounds_split sc 6 3 _ _ R) as (c1 & R1 & R2).
-  assert (P0 : GP sc (exec sc sched)) by (split; [apply inv_exec|exact A]).
+  intros sc c c' HI A R. destruct (erounds_split sc 6 3 _ _ R) as (c1 & R1 & R2).
+  assert (P0 : GP sc c) by (split; [exact HI|exact A]).
   assert (W1 : WP sc c1).
-  { destruct (exits_within_six_rounds sc 0 _ _ P0 R1) as [[HI A1] _]. split; [exact HI|]. intros i L.
+  { destruct (exits_within_six_rounds sc 0 _ _ P0 R1) as [[HI1 A1] _]. split; [exact HI1|]. intros i L.
     destruct (exits_within_six_rounds sc i _ _ P0 R1) as [_ Z]. specialize (A1 i L).
     unfold grank, gr in Z. destruct (s_g (fst c1) i); simpl in *; try lia; try reflexivity; contradiction A1; reflexivity. }
-  destruct (wait_within_three_rounds sc _ _ W1 R2) as [[[I _] A'] Z].
+  destruct (wait_within_three_rounds sc _ _ W1 R2) as [[HI' A'] Z]. split; [exact HI'|]. destruct HI' as [I _].
   pose proof (allret_caller sc _ I (allexit_allret sc _ A')) as AC. pose proof (i_range sc _ I) as RG.
   unfold wait_result. unfold carank in Z. destruct (s_c (fst c')); simpl in *; try lia. discriminate.
 Qed.
+
+Theorem deadlock_free : forall sc sched c',
+  allret sc (fst (exec sc sched)) -> erounds sc 9 (exec sc sched) c' -> wait_result (fst c') <> None.
+Proof. intros sc sched c' A R. apply (deadlock_free_inv sc (exec sc sched) c'); auto. apply inv_exec. Qed.
